@@ -1,6 +1,7 @@
 import GT.Base.JsonQ
 import GT.Base.QSqrt
 import GT.Model.Circle
+import GT.Lemmas.Circle
 import GT.Driver.C13
 open Lean GT.J GT GT.Circle
 namespace GT.Driver.C14
@@ -37,6 +38,34 @@ theorem poincareSphereS_eq {n : ℕ} (r : ℚ → ℚ) (m : Fin n → ℚ) :
     ((poincareSphereS r m).1.toFn, (poincareSphereS r m).2) = poincareSphere r m := by
   simp [poincareSphereS, poincareSphere]
 
+/-- staged `poincareSphereFoot`: the Klein point `Σ λ_j k_j` materialised, then `poincareSphereS` — what
+`spherePoincareOp` executes -/
+def poincareSphereFootS {k n : ℕ} (r : ℚ → ℚ) (lam : Fin k → ℚ) (ks : Fin k → Fin n → ℚ) : V n × ℚ :=
+  poincareSphereS r (S (affComb lam ks)).toFn
+
+theorem poincareSphereFootS_eq {k n : ℕ} (r : ℚ → ℚ) (lam : Fin k → ℚ) (ks : Fin k → Fin n → ℚ) :
+    ((poincareSphereFootS r lam ks).1.toFn, (poincareSphereFootS r lam ks).2) = poincareSphereFoot r lam ks := by
+  simp [poincareSphereFootS, poincareSphereFoot, poincareSphereS_eq, S_toFn]
+
+/-! The pinned tree's centroid construction (`poincareSphereCentroid`, `halfspaceSphereCentroid`, `centroid`) models
+code that the repaired /repo no longer contains; it occurs in the proved negations (`sphere_k3_counterexample`,
+`halfspace_k3_counterexample`) and in `sphere_parameters_partial`.  For an ideal basis of two points — the only case in
+which it agrees with the library — it is the executed construction with `lamMid` (`segCircleOp`): -/
+
+theorem centroid_two_eq_affComb {K : Type*} [Field K] [CharZero K] {n : ℕ} (ks : Fin 2 → Fin n → K) :
+    centroid ks = affComb lamMid ks := by
+  rw [centroid_two, affComb_lamMid]
+
+theorem poincareSphereCentroid_two {K : Type*} [Field K] [LinearOrder K] [CharZero K] {n : ℕ} (r : K → K)
+    (ks : Fin 2 → Fin n → K) :
+    poincareSphereCentroid r ks = poincareSphere r (affComb lamMid ks) := by
+  rw [poincareSphereCentroid, centroid_two_eq_affComb]
+
+theorem halfspaceSphereCentroid_two {K : Type*} [Field K] [CharZero K] {n : ℕ} (r : K → K)
+    (hs : Fin 2 → Fin n → K) :
+    halfspaceSphereCentroid r hs = halfspaceSphere r lamMid hs := by
+  simp only [halfspaceSphereCentroid, halfspaceSphere, centroid_two_eq_affComb]
+
 def sphereChecks {n : ℕ} (m : Fin n → ℚ) : R Unit := do
   needSq |1 - nsq m|
   let p := S (k2p rsqrt m)
@@ -59,7 +88,7 @@ def spherePoincareOp (j : Json) : R Json := do
     let orthOk := (List.finRange (k' + 1)).all fun a =>
       dot (fun i => ks a i - ks 0 i) m.toFn == 0
     sphereChecks m.toFn
-    let s := poincareSphereS rsqrt m.toFn
+    let s := poincareSphereFootS rsqrt lam ks
     return Json.mkObj [("center", ofQArr s.1.a), ("radius", ofQ s.2), ("m", ofQArr m.a),
       ("contract", Json.bool (sumOk && orthOk))]
 
